@@ -531,3 +531,40 @@ def register(reg):
     for _cls in ("httpcore._async.connection_pool.AsyncConnectionPool", "httpcore._async.connection.AsyncHTTPConnection",
                  "httpcore._async.http11.AsyncHTTP11Connection", "httpcore._async.http2.AsyncHTTP2Connection"):
         exit_closes(_cls)
+
+    # ================================================================== map_exceptions (the real generator behind MapExceptionsCtx)
+    ME = "httpcore._exceptions.map_exceptions"
+
+    def _order_sensitive_map(eng, st):
+        # the shape every back end uses: a specific class first, its base class second (order matters)
+        return VDict({("class", "socket.timeout"): VClass(EXC + "ReadTimeout"), ("class", "OSError"): VClass(EXC + "ReadError")})
+
+    @reg.contract
+    class MapExceptions(GeneratorContract):
+        """What the stub `MapExceptionsCtx` (ext_runtime.py) assumes at every `with map_exceptions({...})` of the package, checked
+        against the real 8-line generator for the order-sensitive two-entry shape the back ends use ({specific: A, base: B}):
+        an Exception thrown into it is re-raised as the FIRST matching entry's class, an unmatched Exception and every
+        non-Exception (cancellation) pass through unchanged, nothing is swallowed.  Shape-bounded: one mapping shape, four
+        thrown classes - labelled as such, the general statement stays an assumption."""
+        key = ME
+        props = ("C15", "C16")
+        trees = ("async",)
+        variants = [("specific_then_base", {"map": _order_sensitive_map})]
+        yield_throws = ["socket.timeout", "ConnectionResetError", "RuntimeError", "Cancelled"]
+        raises = [EXC + "ReadTimeout", EXC + "ReadError", "RuntimeError", "Cancelled", "GeneratorExit"]
+        raises_props = ("C15",)
+
+        def checks(self, c):
+            # normal end: only when nothing was thrown in
+            return [("nothing_is_swallowed", ("C15",), len(c.events("yield.throw")) == 0)]
+
+        def exc_checks(self, c, exc):
+            thrown = [e for e in c.trace if False]
+            want = {"socket.timeout": EXC + "ReadTimeout", "ConnectionResetError": EXC + "ReadError", "RuntimeError": "RuntimeError", "Cancelled": "Cancelled"}
+            src = exc.tag.get("mapped_from") or (exc.cause.cls if getattr(exc, "cause", None) is not None else None)
+            if exc.cls == "GeneratorExit":
+                return []
+            if src is None:
+                # passed through unchanged
+                return [("unmatched_and_non_exception_failures_pass_through_unchanged", ("C15", "C16"), exc.cls in ("RuntimeError", "Cancelled"))]
+            return [("mapped_to_the_first_matching_entry", ("C15", "C16"), want.get(src) == exc.cls)]
